@@ -32,7 +32,10 @@ EXTENDS Naturals, Sequences, FiniteSets, TLC
 (*   "ElseOnNewLineGainsBlankLine"  brace position new-line pushes "\n" in front of "{" / else unconditionally        *)
 (*   "ImportArgGapDropped"          the trivia in front of a named import argument (`.import /*c*/ foo from ..`) is     *)
 (*                                  never emitted (it sits on the Located<SpecificImportArg>, only its .data is used)  *)
-CONSTANT Devs
+(*   "FormatWidthPanics"            join_chunks uses label-margin, label-margin + code-margin and the indent unchecked *)
+(*                                  as `format!` widths; a width beyond MaxWidth panics (repaired: capped at MaxWidth)  *)
+CONSTANT Devs,
+         MaxWidth      \* the widest padding `format!` supports: 65535 (u16::MAX); model checking places small margins on it
 
 NL == "\n"
 RECURSIVE Sp(_)
@@ -202,28 +205,35 @@ Toks(st, body, eoftr, trim, o) == Loop(VisitStart(st, body, eoftr, trim), body, 
 Visit(file, o) == Toks(VInit, file.body, file.eof, FALSE, o).ch
 
 (* ------------------------------------------------------------------ Join: chunks -> lines (join_chunks) *)
-JInit == [res |-> <<>>, line |-> "", hasInd |-> FALSE, ind |-> 0, had |-> FALSE, pnl |-> 0]
+JInit == [res |-> <<>>, line |-> "", hasInd |-> FALSE, ind |-> 0, had |-> FALSE, pnl |-> 0, panic |-> FALSE]
+Cap(x) == IF "FormatWidthPanics" \in Devs \/ x <= MaxWidth THEN x ELSE MaxWidth
 
 (* one piece `str` of chunk c; eol = "next chunk is a newline chunk or there is none"; last = c is the last chunk *)
 JPiece(js, c, str, eol, last, o) ==
-  LET lm == o.lm
-      w == o.lm + o.cm
+  LET lm == o.lm                                                                     \* comparisons use the option itself
+      lmw == Cap(o.lm)                                                               \* widths are capped once repaired
+      w == Cap(o.lm + o.cm)
       ign == c.ty = "code" /\ str = NL /\ js.line # "" /\ Len(js.line) <= lm          \* label alone so far: keep the line open
       line1 == CASE c.ty = "label" ->
                       IF Len(js.line) > lm THEN js.line \o str \o " "
-                      ELSE js.line \o (IF o.align = "l" THEN PadR(str \o " ", lm) ELSE PadL(str \o " ", lm))
-                 [] c.ty = "code" -> IF ign THEN js.line ELSE PadR(js.line, lm) \o str
-                 [] c.ty = "comment" -> IF eol THEN PadR(js.line, w) \o str ELSE PadR(js.line, lm) \o str \o " "
+                      ELSE js.line \o (IF o.align = "l" THEN PadR(str \o " ", lmw) ELSE PadL(str \o " ", lmw))
+                 [] c.ty = "code" -> IF ign THEN js.line ELSE PadR(js.line, lmw) \o str
+                 [] c.ty = "comment" -> IF eol THEN PadR(js.line, w) \o str ELSE PadR(js.line, lmw) \o str \o " "
       flush == (~ign /\ EndsNl(str)) \/ last
       blank == Blank(line1)
       stand == ~blank /\ Len(line1) > w /\ Blank(SubSeq(line1, 1, w))                 \* only comments: move to the code column
-      line2 == IF stand THEN Sp(lm) \o SubSeq(line1, w + 1, Len(line1)) ELSE line1
+      line2 == IF stand THEN Sp(lmw) \o SubSeq(line1, w + 1, Len(line1)) ELSE line1
       add == IF blank THEN ~js.had /\ js.pnl = 0 ELSE TRUE
-      out == TrimEnd(Sp(IF js.hasInd THEN js.ind ELSE 0) \o line2)
-  IN IF ~flush THEN [js EXCEPT !.line = line1]
+      indw == Cap(IF js.hasInd THEN js.ind ELSE 0)
+      out == TrimEnd(Sp(indw) \o line2)
+      (* the widths this piece hands to format! *)
+      used == (IF c.ty = "label" /\ Len(js.line) > lm THEN {} ELSE IF c.ty = "code" /\ ign THEN {} ELSE IF c.ty = "comment" /\ eol THEN {w} ELSE {lmw})
+              \cup (IF flush /\ stand THEN {lmw} ELSE {}) \cup (IF flush /\ add THEN {indw} ELSE {})
+      pan == js.panic \/ \E x \in used : x > MaxWidth
+  IN IF ~flush THEN [js EXCEPT !.line = line1, !.panic = pan]
      ELSE [res |-> IF add THEN Append(js.res, out) ELSE js.res, line |-> "", hasInd |-> FALSE, ind |-> 0,
            had |-> IF blank THEN js.had ELSE stand,
-           pnl |-> IF blank THEN (IF add THEN js.pnl + 1 ELSE js.pnl) ELSE 0]
+           pnl |-> IF blank THEN (IF add THEN js.pnl + 1 ELSE js.pnl) ELSE 0, panic |-> pan]
 
 RECURSIVE JPieces(_, _, _, _, _, _)
 JPieces(js, c, ps, eol, last, o) == IF Len(ps) = 0 THEN js ELSE JPieces(JPiece(js, c, Head(ps), eol, last, o), c, Tail(ps), eol, last, o)
@@ -237,6 +247,7 @@ RECURSIVE JoinFrom(_, _, _, _)
 JoinFrom(js, chunks, i, o) == IF i > Len(chunks) THEN js ELSE JoinFrom(JoinStep(js, chunks, i, o), chunks, i + 1, o)
 JoinLines(chunks, o) == JoinFrom(JInit, chunks, 1, o).res
 Join(chunks, o) == JoinNl(JoinLines(chunks, o))
+JoinPanics(chunks, o) == JoinFrom(JInit, chunks, 1, o).panic
 
 Format(file, o) == Join(Visit(file, o), o)
 
